@@ -375,3 +375,38 @@ def replay(label, model=None):
     if bad:
         return f"program {label} (parameters {assignment or 'generic'}): " + "; ".join(f"{o['name']} fails: {o.get('model')}" for o in bad[:3])
     return None
+
+
+def unit_near_unitary(tier="quick", seed=0):
+    """C01 'U_full is always unitary', native floats: unitary blocks that are slightly off (columns scaled, a small non-unitary perturbation, a 1x1 block of
+    modulus != 1) are either refused, or the circuit built from them has U_full unitary to 1e-9 (the library's own tolerance for a block is 1e-10)."""
+    import numpy as np
+    import lightworks as lw
+    fails, n = [], 0
+    rng = np.random.default_rng(5)
+    for dim in (1, 2, 3):
+        V = lw.random_unitary(dim, seed=dim + 2)
+        for eps in (3e-11, 2e-9, 4e-8, 3e-7, 2e-6, 4e-6, 3e-5, 1e-3):
+            variants = [("scaled by 1-eps", (1 - eps) * V), ("one column scaled by 1+2eps", V @ np.diag([1 + 2 * eps] + [1] * (dim - 1))),
+                        ("perturbed", V + eps * (rng.normal(size=(dim, dim)) + 1j * rng.normal(size=(dim, dim))))]
+            for what, M in variants:
+                n += 1
+                try:
+                    blk = lw.Unitary(M)
+                except Exception:  # noqa: BLE001
+                    continue            # refused
+                c = lw.Circuit(dim + 1)
+                c.bs(0, reflectivity=0.3)
+                c.add(blk, 1)
+                c.loss(0, 0.2)
+                U = np.array(c.U_full)
+                dev = float(np.abs(U.conj().T @ U - np.identity(U.shape[0])).max())
+                if dev > 1e-9:
+                    fails.append((dict(block=f"{dim}x{dim} {what}", eps=eps), f"the block was accepted and U_full is off unitarity by {dev:.2e}"))
+    o = dict(name="lightworks/sdk/circuit/circuit.py:Circuit.U_full#bnd.near-unitary-blocks", kind="bnd", cases=n, result="bounded-fail" if fails else "bounded-pass",
+             backend="native floats", ms=0, note="blocks off unitarity by 3e-11 ... 1e-3 (scaled, one column scaled, perturbed; 1x1 to 3x3): refused, or U_full unitary to 1e-9")
+    if fails:
+        o["failing_cases"] = [str(f[0]) for f in fails[:20]]
+        o["model"] = dict(case=fails[0][0], observed=fails[0][1], n_failing=len(fails))
+        o["replayed"] = f"{len(fails)} of {n} blocks fail; first {fails[0][0]}: {fails[0][1]}"
+    return dict(status="ok", obligations=[o], summary=f"near-unitary blocks: {n} cases")
